@@ -57,6 +57,12 @@ def main():
     ck.set("unsupported_encoding_rule_of_tree", rule)
     vlib.log("tree handles an unsupported Content-Encoding by:", rule, "-", s.get("detail", ""))
 
+    # --- binding self-test: corrupted predictions must be reported by the harness ---------------------
+    st = vlib.harness_results(ck, vlib.run([binp, "selftest"], check=False))
+    if (st["a"], st["b"], st["c"], st["d"]) != ("PassThroughIsIdentity", "HtmlGetsExactlyOneScript", "HtmlGetsExactlyOneScript", ""):
+        raise vlib.InfraError("binding self-test failed: %r" % st)
+    ck.set("binding_selftest", "3 corrupted predictions reported, the uncorrupted twin accepted")
+
     # --- GEN: every configuration, end to end --------------------------------------------------------
     gen = vlib.tlc("Proxy", "g.cfg", files={"g.cfg": cfg_with("Proxy_gen.cfg", UnsupportedRule='"%s"' % rule)},
                    workers=1, timeout=900)
@@ -78,7 +84,7 @@ def main():
             "Decide.UnsupportedEncodingPasses" if rule == "pass" else "Decide.UnsupportedEncodingFallsThrough"}
     if not need <= branches:
         raise vlib.InfraError("a branch of modifyResponse's decision was never exercised: %s" % sorted(need - branches))
-    if s["script_inserted_ok"] < 500 or s["passed_through_ok"] < 2000:
+    if not ck._nviol and (s["script_inserted_ok"] < 500 or s["passed_through_ok"] < 2000):
         raise vlib.InfraError("too few positive outcomes: %r" % s)
     ck.set("configurations", len(cases))
     ck.set("configurations_replayed", s["cases_replayed"])
